@@ -14,7 +14,8 @@ pub struct Opts {
     pub mon: Mon,
     /// re-derive terminals by stateless replay and compare
     pub validate: bool,
-    /// false: only the first and last four terminals of the configuration (graphs of four and more jobs)
+    /// true: the first and last eight terminals of the configuration (all, if it has at most 16);
+    /// false: the first and last four (graphs of four and more jobs)
     pub validate_all: bool,
 }
 
@@ -251,7 +252,9 @@ pub fn explore_with(cfg: &Rc<Cfg>, refr: &Rc<Reference>, opts: &Opts) -> Result<
     if opts.validate {
         let nt = out.terminals.len();
         for (i, (t, evs)) in out.terminals.iter().enumerate() {
-            if !opts.validate_all && i >= 4 && i + 4 < nt {
+            // the first and last `keep` terminals (in the order of the terminal map) of every configuration
+            let keep = if opts.validate_all { 8 } else { 4 };
+            if i >= keep && i + keep < nt {
                 continue;
             }
             let (_s, t2, _f) = replay(cfg, refr, evs, m);
